@@ -199,7 +199,7 @@ def run_mpi(ctx, e, P, spec, poison=0, suffix='', seed=1):
         if 'warm_by_rank' in spec:
             sp['warm_local'] = spec['warm_by_rank'][r]
         res, est = _call(e, sp, wrapped[r], metric, local=True,
-                         lengths=lengths if spec['algo'] == 'kmedoids' else None)
+                         lengths=(lengths.copy() if isinstance(lengths, np.ndarray) else list(lengths)) if spec['algo'] == 'kmedoids' else None)
         return dict(ci=[(int(a), int(b)) for a, b in res.center_indices], d=np.array(res.distances),
                     a=np.array(res.assignments), centers=[ctr(c) for c in res.centers])
 
